@@ -91,7 +91,8 @@
 // distinction between nil and empty slices, `len` ≥ 2^63, IO errors of the read effect.
 //
 // On any construct outside the subset the tool prints a message, exits with status 2 and
-// overwrites <outfile> with a stub whose elaboration fails, so that no stale translation survives.
+// leaves the function (and its callers) out of <outfile>, so that the theorems about it stop elaborating and no stale
+// translation survives.
 //
 // # Round 3
 //
@@ -130,6 +131,8 @@ type spec struct {
 	fn    string   // function name
 	fuel  []string // fuel (Lean expression over the parameters) of the i-th `for` loop
 	slice *sliceSpec
+	lean  string // name of the generated definition when it is not fn (methods of the same name on several receivers; dt.go)
+	dt    string // dt.go: "putArgs" = the function ends in `return recv.db.Put(k, v)`; the generated definition yields (k, v)
 }
 
 // slice mode: only one expression of a function with effects is translated
@@ -157,6 +160,16 @@ var whitelist = []spec{
 	{pkg: "datafile", recv: "DataFile", fn: "Truncate"},
 	{pkg: "index", fn: "nextPowerOfTwo"},
 	{pkg: "fio", recv: "MMap", fn: "remap", slice: &sliceSpec{assignTo: "m.endOff", lean: "remap_endOff", guard: "remap_covered"}},
+	// round 3b (dt.go): the redis-layer codecs of datatype/meta.go
+	{pkg: "datatype", recv: "metadata", fn: "encode", lean: "metadata_encode"},
+	{pkg: "datatype", fn: "decodeMetadata"},
+	{pkg: "datatype", recv: "hashInternalKey", fn: "encode", lean: "hashInternalKey_encode"},
+	{pkg: "datatype", recv: "setInternalKey", fn: "encode", lean: "setInternalKey_encode"},
+	{pkg: "datatype", recv: "listInternalKey", fn: "encode", lean: "listInternalKey_encode"},
+	{pkg: "datatype", recv: "zsetInternalKey", fn: "encodeWithMember", lean: "zsetInternalKey_encodeWithMember"},
+	{pkg: "datatype", recv: "zsetInternalKey", fn: "encodeWithScore", lean: "zsetInternalKey_encodeWithScore"},
+	{pkg: "datatype", recv: "DataTypeService", fn: "Set", lean: "Set_put", dt: "putArgs"},
+	{pkg: "datatype", recv: "DataTypeService", fn: "Get"},
 }
 
 // abstract parameter of a generated definition (something the Go function takes from its
@@ -1045,6 +1058,11 @@ func (t *tr) natArg(e ast.Expr) string {
 		if _, isLit := ast.Unparen(e).(*ast.BasicLit); isLit {
 			return tv.Value.ExactString()
 		}
+		if _, isId := ast.Unparen(e).(*ast.Ident); !isId {
+			// a folded constant expression (dt.go: `make([]byte, binary.MaxVarintLen64+1)`); t.expr would print an
+			// untyped literal, on which `.toNat` does not elaborate
+			return "(" + tv.Value.ExactString() + " /- " + src(e) + " -/)"
+		}
 	}
 	x, k := t.expr(e)
 	switch k.k {
@@ -1584,6 +1602,9 @@ func proj(x lx, i, n int) string {
 // call: a call of the primitive table or of an already translated function; returns the Lean
 // expression of the result (a tuple for several results) and the result kinds
 func (t *tr) call(v *ast.CallExpr) (lx, []kind, bool) {
+	if x, ks, ok := t.dtCall(v); ok { // dt.go: clock reads
+		return x, ks, true
+	}
 	for _, pr := range prims {
 		b := map[string]ast.Node{}
 		if !match(parseExpr(pr.pattern), v, b) {
@@ -1768,6 +1789,9 @@ func (t *tr) writeSites(x ast.Node) []*ast.Ident {
 			if match(parseExpr(pr.pattern), v, b) {
 				add(b[pr.write].(ast.Expr))
 			}
+		}
+		if dst := dtWriteDest(v); dst != nil { // dt.go: PutUint64/32/16
+			add(dst)
 		}
 	case *ast.BlockStmt:
 		for i := range v.List {
@@ -2088,6 +2112,12 @@ func (t *tr) simple(s ast.Stmt, o *out, ind string, rest []ast.Stmt) bool {
 		ce, ok := v.X.(*ast.CallExpr)
 		if !ok {
 			return false
+		}
+		if name, rhs, ok := t.dtWriteStmt(ce); ok { // dt.go: copy(b[lo:hi], e), PutUint64/32/16(b[lo:hi], v)
+			t.noPending(s)
+			addUpd(name, name+" := "+rhs)
+			flush()
+			return true
 		}
 		id, ok := ce.Fun.(*ast.Ident)
 		if !ok || id.Name != "copy" || len(ce.Args) != 2 {
@@ -2715,6 +2745,7 @@ func (t *tr) paramDecl(ps []param) string {
 }
 
 func (t *tr) allParams() []param {
+	t.dtSortRecvFields() // dt.go: declaration order of the struct, not first-use order
 	var ps []param
 	for _, a := range t.abstract {
 		ps = append(ps, param{name: a.name, k: kind{k: -1}, goName: a.ty, field: a.doc})
@@ -3109,9 +3140,15 @@ func translate(p *pkgInfo, sp spec) (text string, err error) {
 		return "", fmt.Errorf("function %s is declared more than once in package %s", key, p.dir)
 	}
 	t := &tr{p: p, sp: sp, leanName: p.name + "." + sp.fn}
+	if sp.lean != "" {
+		t.leanName = p.name + "." + sp.lean
+	}
 	t.setup(fd)
 	if sp.slice != nil {
 		return t.sliceFn(), nil
+	}
+	if sp.dt != "" {
+		return t.dtMode(), nil // dt.go
 	}
 	return t.function(), nil
 }
@@ -3150,27 +3187,23 @@ func main() {
 		}
 		p.defs = append(p.defs, text)
 	}
-	if failed {
-		// never leave a stale translation behind: the Lean build must fail too
-		var sb strings.Builder
-		sb.WriteString("/- GENERATED by harness/cmd/trans from the Go sources on every run -- do not edit.\n")
-		sb.WriteString("   TRANSLATION FAILED: a whitelisted function left the supported Go subset. -/\n")
-		for _, m := range failures {
-			fmt.Fprintf(&sb, "#eval show IO Unit from throw (IO.userError %s)\n", leanStr(m))
-		}
-		os.MkdirAll(filepath.Dir(outFile), 0o755)
-		os.WriteFile(outFile, []byte(sb.String()), 0o644)
-		os.Exit(2)
-	}
+	// A function that left the supported subset (and every function that calls it) is simply NOT defined in the generated
+	// file: the equality theorems about it no longer elaborate, so the obligations of the properties that restate them fail,
+	// while the translations of the other functions - and the properties that depend only on those - are unaffected.
+	// The file is regenerated as a whole on every run, so no stale definition can survive.
 	var sb strings.Builder
 	sb.WriteString("import XixiKV.Model.Varint\n")
 	sb.WriteString("/- GENERATED by harness/cmd/trans from the Go sources on every run -- do not edit.\n")
 	sb.WriteString("   Mechanical translation of whitelisted Go functions; see harness/cmd/trans/main.go for the\n")
 	sb.WriteString("   Go subset, the effect / primitive tables and the integer semantics.  The equalities with the\n")
-	sb.WriteString("   hand-written model are proved in XixiKV/Proofs/TransEq.lean, TransEq2.lean and TransEq3.lean. -/\n")
+	sb.WriteString("   hand-written model are proved in XixiKV/Proofs/TransEq*.lean (rounds 1 to 3). -/\n")
+	for _, m := range failures {
+		fmt.Fprintf(&sb, "/- NOT TRANSLATED: %s -/\n", strings.ReplaceAll(m, "-/", "- /"))
+	}
 	sb.WriteString("namespace XixiKV.Generated.Trans\n\n")
 	sb.WriteString("set_option linter.unusedVariables false -- (`fun st => some true` after a loop whose state is not used again)\n\n")
 	sb.WriteString(prelude)
+	sb.WriteString(dtPrelude) // dt.go
 	for _, dir := range order {
 		p := pkgs[dir]
 		fmt.Fprintf(&sb, "\n/-! ## package %s (%s) -/\n", p.name, dir)
@@ -3207,12 +3240,18 @@ func main() {
 	}
 	old, err := os.ReadFile(outFile)
 	if err == nil && string(old) == sb.String() {
-		fmt.Printf("trans: %d functions, unchanged\n", len(whitelist))
+		fmt.Printf("trans: %d functions, unchanged\n", len(whitelist)-len(failures))
+		if failed {
+			os.Exit(2)
+		}
 		return
 	}
 	if err := os.WriteFile(outFile, []byte(sb.String()), 0o644); err != nil {
 		fmt.Fprintln(os.Stderr, "trans:", err)
 		os.Exit(1)
 	}
-	fmt.Printf("trans: %d functions written to %s\n", len(whitelist), outFile)
+	fmt.Printf("trans: %d functions written to %s\n", len(whitelist)-len(failures), outFile)
+	if failed {
+		os.Exit(2)
+	}
 }
